@@ -410,6 +410,16 @@ func checkC11(c *Ctx) {
 				all[i] = pickStr(r, all[i]+"/", filepath.Dir(all[i])+"/./"+filepath.Base(all[i]), all[i]+"/.", filepath.Dir(all[i])+"//"+filepath.Base(all[i]), all[i])
 			}
 			c.Count("histories_with_non_clean_directory_spellings", 1)
+		} else if chance(r, 25) {
+			// the directories configured by a path that has a symbolic link among its parent
+			// components (like /var/run/cdi where /var/run is a link to /run)
+			must(os.Symlink(pickStr(r, ".", root), filepath.Join(root, "via")))
+			for i := 1; i < len(all); i++ {
+				rel, err := filepath.Rel(root, all[i])
+				must(err)
+				all[i] = filepath.Join(root, "via", rel)
+			}
+			c.Count("histories_with_a_symbolic_link_among_the_parents", 1)
 		}
 		// the history
 		var history, kinds, pacing []string
